@@ -36,10 +36,13 @@ FEATURES = ["plain", "plain", "serial-big", "resseq-big", "resseq-4col", "coord-
 def cases(tier, seed):
     n, per = (16, 1200) if tier == "quick" else (1600, 5000)
     out = [{"kind": "direct", "seed": seed * 3001 + i, "n": per} for i in range(n)]
-    ne = 40 if tier == "quick" else 5000
+    ne = 60 if tier == "quick" else 6000
     rng = random.Random(seed)
     for i in range(ne):
         flags = [f for f in ("--whitespace", "--keep-chain") if rng.random() < 0.5]
+        if rng.random() < 0.45:
+            # output naming schemes rename per atom (CHARMM: DISU / TER residue names inside one residue)
+            flags.append("--ffout=" + rng.choice(["CHARMM", "CHARMM", "AMBER", "PARSE", "TYL06", "PEOEPB", "SWANSON"]))
         out.append({"kind": "e2e", "w": "synth", "seed": seed * 4001 + i, "ff": common.FFS[i % 6],
                     "p": {"maxlen": 5, "na_prob": 0.1, "waters": [0, 2]}, "mut": rng.choice(["none", "resseq4",
                                                                                             "icode", "offset", "negnum"]),
